@@ -12,11 +12,15 @@ if ! cmp -s _CoqProject.new _CoqProject; then mv _CoqProject.new _CoqProject; el
 if [ ! -f Makefile ] || [ _CoqProject -nt Makefile ]; then
   coq_makefile -f _CoqProject -o Makefile >/dev/null || exit 2
 fi
+# A stale or half-written dependency file (.Makefile.d, e.g. when the tree was copied while a build was running) makes
+# `make` compile files before their dependencies ("Cannot find a physical path ..."): on failure the dependency
+# file is regenerated and the build repeated once.
+build() { timeout 3000 make -k -j16 2>&1; }
 if [ "$1" = "quiet" ]; then
-  out=$(timeout 3000 make -k -j16 2>&1) || { echo "$out" | tail -80; exit 2; }
+  out=$(build) || { rm -f .Makefile.d; out=$(build); } || { echo "$out" | tail -80; exit 2; }
 else
   # a file that does not compile makes the checks that depend on it fail their own obligations;
   # the remaining properties stay checkable, so the set-up itself does not fail
-  timeout 3000 make -k -j16 || echo "setup.sh: WARNING some static Coq files did not compile (see above)"
+  build || { rm -f .Makefile.d; build; } || echo "setup.sh: WARNING some static Coq files did not compile (see above)"
 fi
 exit 0
